@@ -1,6 +1,6 @@
 (** Property C18 — lowering and encoding are deterministic. *)
 From stdpp Require Import sorting.
-From Tx3 Require Import Base Tir Reduce Serde Front_proofs.
+From Tx3 Require Import Base Tir Reduce Serde Front_proofs Serde_order.
 
 (** the key-ordered view under which directive fields are serialized does not depend on the
     order in which the hash map yields them *)
@@ -15,6 +15,14 @@ Proof. exact bt_of_list_sorted. Qed.
 Theorem C18_key_order_total : forall a b, string_ltb a b = false -> string_ltb b a = false -> a = b.
 Proof. exact string_ltb_total. Qed.
 
+(** the bytes of a whole encoded transaction are one byte string whatever order the hash maps
+    of its ad-hoc directives yield their fields in: replacing every directive by the same
+    directive met under another iteration order leaves to_bytes unchanged *)
+Theorem C18_encoding_independent_of_iteration_order : forall (t : tx) (a2 : list adhoc),
+  Forall2 adhoc_same (tx_adhoc t) a2 -> to_bytes (with_adhoc t a2) = to_bytes t.
+Proof. exact to_bytes_iteration_order_independent. Qed.
+
 Print Assumptions C18_key_order_independent_of_iteration_order.
 Print Assumptions C18_key_order_sorted.
 Print Assumptions C18_key_order_total.
+Print Assumptions C18_encoding_independent_of_iteration_order.
